@@ -51,6 +51,9 @@ PINNED = {  # (file, class or None, function) -> sha1[:12] of the AST dump
     ("functions.py", None, "lit"): "?",
     ("functions.py", None, "when"): "?",
     ("functions.py", None, "element_at"): "?",
+    ("functions.py", None, "endswith"): "?",
+    ("function_alternatives.py", None, "endswith_with_underscore"): "?",
+    ("column.py", None, "_operand"): "?",
     ("function_alternatives.py", None, "element_at_using_brackets"): "?",
 }
 PIN_FILE = os.path.join(os.path.dirname(os.path.abspath(__file__)), "c05_pins.json")
@@ -87,11 +90,11 @@ class Sym:
         return isinstance(v, tuple) and v[0] in ("self", "litcol", "parsecol", "wrap") or \
             (isinstance(v, tuple) and v[0] == "arg" and v[2] == "col")
 
-    def expr_of(self, v):
+    def expr_of(self, v, keep_alias=False):
         if v == ("self",):
             return ("E", "self")
         if v[0] == "arg" and v[2] == "col":
-            return ("E", v[1])
+            return ("EA" if keep_alias else "E", v[1])   # .expression keeps an Alias node, .column_expression drops it
         if v[0] == "litcol":
             return ("L", v[1])
         if v[0] == "parsecol":
@@ -112,7 +115,7 @@ class Sym:
             if isinstance(v[1], str):
                 return ("parsecol", repr(v[1]))
             return ("litcol", repr(v[1]))
-        if v[0] in ("node", "E", "L", "N"):
+        if v[0] in ("node", "E", "EA", "L", "N", "W"):
             return ("wrap", v)
         raise Untranslatable(f"Column({v!r})")
 
@@ -187,7 +190,7 @@ class Sym:
         if isinstance(n, ast.Name):
             if n.id in env:
                 return env[n.id]
-            if n.id in ("str", "Column", "exp", "cls", "isinstance"):
+            if n.id in ("str", "Column", "exp", "cls", "isinstance", "_operand", "get_func_from_session"):
                 return ("name", n.id)
             raise Untranslatable(f"unknown name {n.id}")
         if isinstance(n, ast.Attribute):
@@ -195,7 +198,7 @@ class Sym:
                 return ("cls", n.attr)
             base = self.ev(n.value, env)
             if n.attr in ("column_expression", "expression") and self.is_column(base):
-                return self.expr_of(base)
+                return self.expr_of(base, keep_alias=(n.attr == "expression"))
             if base == ("self",) or base == ("name", "cls") or base == ("name", "Column"):
                 return ("method", n.attr)
             raise Untranslatable("attribute " + ast.unparse(n))
@@ -231,6 +234,20 @@ class Sym:
             if t == ("name", "Column"):
                 return ("const", self.is_column(x))
             raise Untranslatable("isinstance against " + repr(t))
+        if f == ("name", "_operand"):
+            if len(args) != 1 or kwargs:
+                raise Untranslatable("_operand(...) arity")
+            return ("W", args[0])
+        if f == ("name", "get_func_from_session"):
+            if len(args) != 1 or args[0][0] != "const":
+                raise Untranslatable("get_func_from_session argument")
+            return ("sessfn", args[0][1])
+        if f[0] == "sessfn":
+            if f[1] == "endswith" and len(args) == 2 and not kwargs:
+                # functions.endswith on a DuckDB session -> endswith_with_underscore -> ENDS_WITH(...), auto-aliased (pinned)
+                return ("wrap", ("node", "Anonymous:ENDS_WITH",
+                                 {"this": self.expr_of(self.make_column(args[0])), "args": (self.expr_of(self.make_column(args[1])),)}))
+            raise Untranslatable("session function " + f[1])
         if f == ("name", "Column"):
             if len(args) != 1 or kwargs:
                 raise Untranslatable("Column(...) arity")
@@ -281,6 +298,11 @@ def classify_bin(sym: Sym, name: str):
         if not (t[0] == "node" and set(t[2]) == {"this", "expression"}):
             raise Untranslatable(f"{name}: template {t!r}")
         cls, a, b = t[1], t[2]["this"], t[2]["expression"]
+        wa, wb = a[0] == "W", b[0] == "W"
+        if wa != wb:
+            raise Untranslatable(f"{name}: only one operand goes through _operand")
+        if wa:
+            a, b = a[1], b[1]
         if cls not in BOP:
             raise Untranslatable(f"{name}: sqlglot class exp.{cls} is outside the modelled operator set")
         if a == ("E", "self"):
@@ -289,13 +311,14 @@ def classify_bin(sym: Sym, name: str):
             left, o = False, a
         else:
             raise Untranslatable(f"{name}: receiver is not an operand: {t!r}")
-        res[kind] = (cls, left, paren, o)
-    (c1, l1, p1, o1), (c2, l2, p2, o2), (c3, l3, p3, o3) = res["col"], res["str"], res["py"]
-    if (c1, l1, p1) != (c2, l2, p2) or (c1, l1, p1) != (c3, l3, p3):
+        res[kind] = ((cls, left, paren, wa), o)
+    (k1, o1), (k2, o2), (k3, o3) = res["col"], res["str"], res["py"]
+    (c1, l1, p1, w1) = k1
+    if k1 != k2 or k1 != k3:
         raise Untranslatable(f"{name}: shape depends on the operand's Python type")
     if o1 != ("E", "other") or o3 != ("L", "other") or o2 not in (("L", "other"), ("N", "other")):
         raise Untranslatable(f"{name}: operand templates {o1!r} {o2!r} {o3!r}")
-    return BOP[c1], l1, p1, o2 == ("L", "other")
+    return BOP[c1], l1, p1, o2 == ("L", "other"), w1
 
 
 def classify_un(sym: Sym, name: str):
@@ -311,37 +334,66 @@ def classify_un(sym: Sym, name: str):
     return t[1] == "Not", paren
 
 
+def _unw(x, flags):
+    """strip an _operand(...) marker, remembering whether it was there"""
+    if x[0] == "W":
+        flags.append(True)
+        return x[1]
+    flags.append(False)
+    return x
+
+
 def shapes(sym: Sym):
-    """verdicts on the remaining small methods; returns (ok, isnotnull_paren, like_cls, ilike_cls, fn names, notes)"""
+    """verdicts on the remaining small methods;
+    returns (ok, isnotnull_paren, like classes, fn names, pred_opwrap, between_unalias, notes)"""
     notes = []
     ok = True
-    IS = ("node", "Is", {"this": ("E", "self"), "expression": ("node", "Null", {})})
+    wraps = []          # does each predicate method pass its operands through _operand?
+    NULL = ("node", "Null", {})
+
+    def is_node(t):
+        if t[0] == "node" and t[1] == "Is" and set(t[2]) == {"this", "expression"} and t[2]["expression"] == NULL:
+            return _unw(t[2]["this"], wraps) == ("E", "self")
+        return False
+
     t = _strip_wrap(sym.call_method("isNull", [], {}))
-    if t != IS:
+    if not is_node(t):
         ok = False
         notes.append(f"isNull builds {t!r}")
     t = _strip_wrap(sym.call_method("isNotNull", [], {}))
     inn_paren = False
-    if t == ("node", "Not", {"this": IS}):
+    if t[0] == "node" and t[1] == "Not" and set(t[2]) == {"this"} and is_node(t[2]["this"]):
         pass
-    elif t == ("node", "Not", {"this": ("node", "Paren", {"this": IS})}):
+    elif t[0] == "node" and t[1] == "Not" and t[2]["this"][0] == "node" and t[2]["this"][1] == "Paren" \
+            and is_node(t[2]["this"][2]["this"]):
         inn_paren = True
     else:
         ok = False
         notes.append(f"isNotNull builds {t!r}")
-    for kinds, want in ((("col", "col"), (("E", "lowerBound"), ("E", "upperBound"))),
-                        (("py", "py"), (("L", "lowerBound"), ("L", "upperBound"))),
-                        (("str", "str"), (("L", "lowerBound"), ("L", "upperBound")))):
+    unalias = set()
+    for kinds, lit in ((("col", "col"), False), (("py", "py"), True), (("str", "str"), True)):
         t = _strip_wrap(sym.call_method("between", [("arg", "lowerBound", kinds[0]), ("arg", "upperBound", kinds[1])], {}))
-        if t != ("node", "Between", {"this": ("E", "self"), "low": want[0], "high": want[1]}):
+        good = t[0] == "node" and t[1] == "Between" and set(t[2]) == {"this", "low", "high"}
+        if good:
+            th, lo, hi = (_unw(t[2][k], wraps) for k in ("this", "low", "high"))
+            if lit:
+                good = th == ("E", "self") and lo == ("L", "lowerBound") and hi == ("L", "upperBound")
+            else:
+                good = th == ("E", "self") and lo[0] in ("E", "EA") and hi[0] == lo[0] \
+                    and lo[1] == "lowerBound" and hi[1] == "upperBound"
+                unalias.add(lo[0] == "E")
+        if not good:
             ok = False
             notes.append(f"between{kinds} builds {t!r}")
     like = {}
     for m in ("like", "ilike"):
         t = _strip_wrap(sym.call_method(m, [("arg", "other", "str")], {}))
-        if not (t[0] == "node" and t[1] in BOP and t[2] == {"this": ("E", "self"), "expression": ("L", "other")}):
+        if not (t[0] == "node" and t[1] in BOP and set(t[2]) == {"this", "expression"}
+                and t[2]["expression"] == ("L", "other") and _unw(t[2]["this"], wraps) == ("E", "self")):
             raise Untranslatable(f"{m}: template {t!r}")
         like[m] = BOP[t[1]]
+    if len(set(wraps)) != 1:
+        raise Untranslatable("isNull/isNotNull/between/like/ilike disagree on passing their operands through _operand")
     fns = {}
     t = _strip_wrap(sym.call_method("rlike", [("arg", "regexp", "str")], {}))
     if not (t[0] == "node" and t[2] == {"this": ("E", "self"), "expression": ("L", "regexp")}):
@@ -353,8 +405,9 @@ def shapes(sym: Sym):
             t = _strip_wrap(sym.call_method(m, [("arg", "value", kind)], {}))
             if t[0] == "node" and t[1].startswith("Anonymous:") and t[2] == {"this": ("E", "self"), "args": (want,)}:
                 names.add(t[1].split(":", 1)[1])
-            elif t[0] == "node" and t[2] == {"this": ("E", "self"), "expression": want}:
-                names.add(fn_name(t[1]))
+            elif t[0] == "node" and set(t[2]) == {"this", "expression"} and t[2]["this"] == ("E", "self") \
+                    and t[2]["expression"] in (want, ("EA", "value")):
+                names.add(fn_name(t[1]))     # invoke_expression_over_column unaliases its keyword arguments (pinned)
             else:
                 raise Untranslatable(f"{m}: template {t!r}")
         if len(names) != 1:
@@ -366,10 +419,32 @@ def shapes(sym: Sym):
         notes.append(f"substr builds {t!r}")
     fns["substr"] = fn_name(t[1]) if t[0] == "node" else "?"
     t = _strip_wrap(sym.call_method("substr", [("arg", "startPos", "col"), ("arg", "length", "col")], {}))
-    if not (t[0] == "node" and t[2] == {"this": ("E", "self"), "start": ("E", "startPos"), "length": ("E", "length")}):
+    if not (t[0] == "node" and t[2]["this"] == ("E", "self") and t[2].get("start", ("?",))[1:] == ("startPos",)
+            and t[2].get("length", ("?",))[1:] == ("length",)):
         ok = False
         notes.append(f"substr(col, col) builds {t!r}")
-    return ok, inn_paren, like, fns, notes
+    return ok, inn_paren, like, fns, wraps[0], unalias == {True}, notes
+
+
+EXPECTED_OPEN = {"EQ", "NEQ", "GT", "GTE", "LT", "LTE", "NullSafeEQ", "Is", "Not", "In", "Between", "Like", "ILike", "And", "Or"}
+
+
+def check_operand_classes(tree):
+    """the tuple _operand tests against must be exactly the classes Build.is_open models (fail-closed)"""
+    for st in tree.body:
+        if isinstance(st, ast.Assign) and len(st.targets) == 1 and isinstance(st.targets[0], ast.Name) \
+                and st.targets[0].id == "_UNPARENTHESIZED_OPERANDS":
+            if not isinstance(st.value, ast.Tuple):
+                raise Untranslatable("_UNPARENTHESIZED_OPERANDS is not a tuple literal")
+            names = set()
+            for e in st.value.elts:
+                if not (isinstance(e, ast.Attribute) and isinstance(e.value, ast.Name) and e.value.id == "exp"):
+                    raise Untranslatable("_UNPARENTHESIZED_OPERANDS element " + ast.unparse(e))
+                names.add(e.attr)
+            if names != EXPECTED_OPEN:
+                raise Untranslatable(f"_UNPARENTHESIZED_OPERANDS = {sorted(names)} differs from the modelled set (Build.is_open)")
+            return sorted(names)
+    return None     # no _operand machinery in this source tree
 
 
 def fn_name(cls: str) -> str:
@@ -395,14 +470,17 @@ def pins(repo: str):
             for m in tree.body:
                 if isinstance(m, ast.FunctionDef) and m.name == fn:
                     node = m
+        if node is None and fn == "_operand":
+            out[f"{fname}:{fn}"] = "absent"
+            continue
         if node is None:
             raise Untranslatable(f"{fname}: {cls or ''}.{fn} not found")
         out[f"{fname}:{cls + '.' if cls else ''}{fn}"] = ast_hash(node)
     return out
 
 
-def bf(c, l, p, s):
-    return f"(mkBF {c} {str(l).lower()} {str(p).lower()} {str(s).lower()})"
+def bf(c, l, p, s, w):
+    return f"(mkBF {c} {str(l).lower()} {str(p).lower()} {str(s).lower()} {str(w).lower()})"
 
 
 def generate(repo: str):
@@ -435,7 +513,8 @@ def generate(repo: str):
     nse = classify_bin(sym, "eqNullSafe")
     neg = classify_un(sym, "__neg__")
     inv = classify_un(sym, "__invert__")
-    ok, inn_paren, like, fns, notes = shapes(sym)
+    open_classes = check_operand_classes(tree)
+    ok, inn_paren, like, fns, pred_wrap, btw_unalias, notes = shapes(sym)
     for u in UOPS:
         facts.append({"name": f"fwd[{u}]", "source": "column.py:Column dunder", "value": list(fwd[u])})
     for u in rev:
@@ -443,7 +522,8 @@ def generate(repo: str):
     facts += [{"name": "eqNullSafe", "value": list(nse)}, {"name": "__neg__(not,paren)", "value": list(neg)},
               {"name": "__invert__(not,paren)", "value": list(inv)},
               {"name": "shapes_ok", "value": ok, "notes": notes}, {"name": "isNotNull inner paren", "value": inn_paren},
-              {"name": "like classes", "value": like}, {"name": "function names (DuckDB)", "value": fns},
+              {"name": "like classes", "value": like}, {"name": "_operand classes", "value": open_classes},
+              {"name": "pred_opwrap", "value": pred_wrap}, {"name": "between_unalias", "value": btw_unalias}, {"name": "function names (DuckDB)", "value": fns},
               {"name": "getItem offsets: literal key / Column key / Column key containing a numeric literal", "value": [1, 0, 0], "source": "pinned getItem + element_at_using_brackets + sqlglot DuckDB index offset"}]
     lines = ["(* generated by translate/c05_facts.py from sqlframe/base/column.py -- do not edit *)",
              "From SF Require Import C05.Build.", "Open Scope string_scope.", ""]
@@ -453,13 +533,13 @@ def generate(repo: str):
     lines.append("  end.")
     lines.append("Definition gen_rev (o : uop) : binfact :=\n  match o with")
     for u in UOPS:
-        lines.append(f"  | {u} => {bf(*rev[u]) if u in rev else '(mkBF Add true false false)'}")
+        lines.append(f"  | {u} => {bf(*rev[u]) if u in rev else '(mkBF Add true false false false)'}")
     lines.append("  end.")
     b = lambda x: str(x).lower()
     lines.append("Definition gen_cfg : cfg :=\n  mkCfg gen_fwd gen_rev " + bf(*nse)
                  + f"\n    (mkUF {b(neg[0])} {b(neg[1])}) (mkUF {b(inv[0])} {b(inv[1])}) {b(inn_paren)} {b(ok)}"
                  + f"\n    {like['like']} {like['ilike']} {strlit(fns['rlike'])} {strlit(fns['startswith'])} "
-                 + f"{strlit(fns['endswith'])} {strlit(fns['substr'])} 1%Z 0%Z 0%Z.")
+                 + f"{strlit(fns['endswith'])} {strlit(fns['substr'])} 1%Z 0%Z 0%Z {b(pred_wrap)} {b(btw_unalias)}.")
     return "\n".join(lines) + "\n", facts
 
 
